@@ -3,6 +3,7 @@
    Model/Directives.v (insertWordBreaks, changeNewlineToBr, truncate,
    url.QueryEscape), Model/JsEscape.v (template.JSEscapeString, json.Marshal of
    a string); decoders: Spec/Codec.v, Spec/Html.v. *)
+From Soy Require Import Proofs.SourceTieDirectives.
 From Soy Require Import Model.Bytes Generated.Tables Model.Utf8 Model.Outcome Model.Escape Model.Directives Model.JsEscape
   Spec.Html Spec.Codec Proofs.Utf8Proofs Proofs.CodecProofs.
 Open Scope N_scope.
